@@ -108,6 +108,6 @@ def exec (k : Conf) (s : Sh) : PC → Sh × Next PC
 
 def init : Sh := { head := none, next := fun _ => none, heap := [], seq := 0, length := 0 }
 
-def algo (k : Conf) : Algo := { Sh, PC, start := start k, label, exec := exec k }
+@[reducible] def algo (k : Conf) : Algo := { Sh, PC, start := start k, label, exec := exec k }
 
 end GoaktVerif.Model.C04.Intake
